@@ -240,6 +240,36 @@ func capacityBracket(W [][]float64) (lo, hi float64, ok bool) {
 	return 0, 0, false
 }
 
+// refBlahut iterates p <- p exp(lambda D(W_i||q_p)) / Z (= p^(1-lambda) r^lambda with
+// r_i = p_i exp(D_i)) from p0, optionally perturbed.
+func refBlahut(W [][]float64, p0 []float64, steps int, lambda, perturb float64) []float64 {
+	p := cloneF(p0)
+	if perturb != 0 {
+		s := 0.0
+		for i := range p {
+			p[i] *= 1 + perturb*float64(1+i%3)
+			s += p[i]
+		}
+		for i := range p {
+			p[i] /= s
+		}
+	}
+	for k := 0; k < steps; k++ {
+		_, D := mutualInfo(W, p)
+		s := 0.0
+		for i := range p {
+			if p[i] > 0 {
+				p[i] *= math.Exp(lambda * D[i])
+			}
+			s += p[i]
+		}
+		for i := range p {
+			p[i] /= s
+		}
+	}
+	return p
+}
+
 func caseBlahut(cs *fw.Case, directed int) {
 	if directed >= 0 {
 		cs.R = prng.For(20261003, "blahut.directed", cs.Index) // independent of VERIF_SEED
@@ -291,18 +321,22 @@ func caseBlahut(cs *fw.Case, directed int) {
 	if directed >= 0 {
 		variant = []string{"RunNaive", "Run"}[directed%2]
 	}
+	// relaxation parameter: p <- p^(1-lambda) r^lambda, i.e. p <- p exp(lambda D) / Z
 	lambda := 1.0
-	if r.Chance(0.2) {
-		lambda = r.Uniform(0.3, 1)
+	if r.Chance(0.55) {
+		lambda = []float64{r.Uniform(0.3, 1), 0.5, 0.8, 0.9, 1.2, 1.5, 1.8}[r.Intn(7)]
 	}
 	class := "channel:positive"
 	if hasZero {
 		class = "channel:has-zero-entries"
 	}
 	lam := "lambda=1"
-	if lambda != 1 {
+	if lambda < 1 {
 		lam = "lambda<1"
+	} else if lambda > 1 {
+		lam = "lambda>1"
 	}
+	cs.Cover("blahut:" + lam)
 	ru := &run{cs: cs, monitor: "blahut", routine: "blahut." + variant, opts: lam, class: class}
 	ru.witness = map[string]any{"channel": W, "p0": p0, "steps": steps, "lambda": lambda}
 	hooks := 0
@@ -375,6 +409,47 @@ func caseBlahut(cs *fw.Case, directed int) {
 	}
 	if nanSeen {
 		ru.violWith("-", class, "hook-mismatch:value", "the hook received J = NaN although the returned vector is a distribution")
+	}
+	// reference model: the stated update rule p <- p^(1-lambda) r^lambda iterated in
+	// float64 by the monitor (any lambda).  The comparison is conditioned: the same
+	// iteration from a start perturbed by 1e-13 measures how much rounding is amplified.
+	ref := refBlahut(W, p0, steps, lambda, 0)
+	prt := refBlahut(W, p0, steps, lambda, 1e-13)
+	sens, refOK := 0.0, len(ref) == n
+	for i := range ref {
+		if !finite(ref[i]) || !finite(prt[i]) {
+			refOK = false
+		}
+		sens = math.Max(sens, math.Abs(ref[i]-prt[i]))
+	}
+	if !refOK || sens > 1e-10 {
+		cs.Cover("skipped:blahut-reference-ill-conditioned")
+	} else {
+		tol := 1e-10 + 1e3*sens
+		cs.Cover("judged:update-rule:" + ru.routine + ":" + lam)
+		for i := range pr {
+			if !(math.Abs(pr[i]-ref[i]) <= tol) {
+				ru.viol("update-rule", fmt.Sprintf("after %d steps with lambda = %g the returned p = %s differs from the iteration p <- p^(1-lambda) r^lambda carried out by the monitor, %s (|diff| %.3g > %.3g)",
+					steps, lambda, fmtVec(pr), fmtVec(ref), math.Abs(pr[i]-ref[i]), tol))
+				break
+			}
+		}
+		// capacity optimality (KKT): D(W_x||q) = C where p_x > 0, <= C elsewhere, i.e.
+		// max_x D(W_x||q) - I(p) = 0; judged when the reference iteration has converged
+		Iref, Dref := mutualInfo(W, ref)
+		Ilib, Dlib := mutualInfo(W, pr)
+		gr, gl := -Iref, -Ilib
+		for i := range Dref {
+			gr = math.Max(gr, Dref[i]-Iref)
+			gl = math.Max(gl, Dlib[i]-Ilib)
+		}
+		if gr < 1e-9 {
+			cs.Cover("judged:kkt:" + ru.routine + ":" + lam)
+			if !(gl < 1e-7) {
+				ru.viol("capacity-optimality", fmt.Sprintf("after %d steps with lambda = %g: max_x D(W_x||q) - I(p) = %.3g at the returned p = %s although the iteration has converged (reference gap %.3g)",
+					steps, lambda, gl, fmtVec(pr), gr))
+			}
+		}
 	}
 	if lambda != 1 {
 		return
